@@ -36,6 +36,10 @@ def run(prog: Program, rep: Report):
     from .c11 import r5_index
     from .filefam import Family
     rep.attempt(lambda: r5_index(prog, rep, Family(prog), rule="C13.R9", only_binary=True))
+    # a record that was not edited is parsed from the raw line: exactly the line, minus one terminator (C11.R3)
+    from .c11 import r3_terminator, r3b_raw_reader
+    rep.attempt(lambda: r3_terminator(prog, rep, Family(prog), rule="C13.R10"))
+    rep.attempt(lambda: r3b_raw_reader(prog, rep, Family(prog), rule="C13.R10"))
     rep.attempt(lambda: r6_class_keyed(prog, rep, [record, jsonr, csvr] + [c for c in prog.classes.values() if c.mod.name == FILES_MOD and csvr in (c.mro or []) and c is not csvr]))
 
 
@@ -209,7 +213,27 @@ def r2_fields(prog, rep: Report, record: Cls, csvr: Cls, jsonr: Cls):
             continue
         verdicts.append(("ok", "") if pairs_ok and src_ok and cond_ok else
                         ("viol", "JsonRecord.load does not keep exactly the (key, value) pairs whose key is in cls.field_names()"))
-    if un or not normal:
+    # positively wrong whatever the rest looks like: a field is kept or dropped by looking at its *value*
+    # (`value = d.get(name); if value is not None: kwargs[name] = value`): a field that is null / falsy in the file is lost
+    by_value = None
+    for a_ in walk_own(jl.node):
+        if isinstance(a_, ast.Assign) and len(a_.targets) == 1 and isinstance(a_.targets[0], ast.Name) and isinstance(a_.value, ast.Call) \
+                and isinstance(a_.value.func, ast.Attribute) and a_.value.func.attr == "get" and 1 <= len(a_.value.args) <= 2 \
+                and (len(a_.value.args) == 1 or const_value(a_.value.args[1], 0) is None):
+            v_ = a_.targets[0].id
+            for t_ in walk_own(jl.node):
+                if isinstance(t_, ast.If):
+                    tt = t_.test.operand if isinstance(t_.test, ast.UnaryOp) and isinstance(t_.test.op, ast.Not) else t_.test
+                    if (isinstance(tt, ast.Name) and tt.id == v_) or (isinstance(tt, ast.Compare) and len(tt.ops) == 1
+                                                                      and isinstance(tt.ops[0], (ast.Is, ast.IsNot, ast.Eq, ast.NotEq))
+                                                                      and isinstance(tt.left, ast.Name) and tt.left.id == v_
+                                                                      and const_value(tt.comparators[0], 0) is None):
+                        by_value = (a_, t_)
+    if by_value is not None:
+        rep.viol("C13.R2", jl, "json-fields", f"`{src(by_value[0])}` followed by `if {src(by_value[1].test)}`: a field is kept or dropped by "
+                 "looking at its value, so a field that is null (or falsy) in the line cannot be told from a missing one",
+                 scenario="a record with an Optional field set to None and a non-None default: load(save(r)) != r", line=by_value[1].lineno)
+    elif un or not normal:
         rep.unrec("C13.R2", jl, "json-fields", "; ".join(un) or "no normal path through load()")
     elif any(k_ == "viol" for k_, _ in verdicts):
         rep.viol("C13.R2", jl, "json-fields", [m for k_, m in verdicts if k_ == "viol"][0], scenario="a field is dropped or renamed on load")
